@@ -216,13 +216,14 @@ def run(ctx):
         ctx.count()
         ctx.mark(('reap-after-reuse', maxchan), True)
         ctx.hist('kind=reap-after-reuse')
-    for tag, fn in ([('burst-%d' % n, (lambda n=n: tg.burst_in_one_read(ctx, rng, 'C02', n))) for n in (40, 130)] +
+    for tag, fn in ([('burst-%d' % n, (lambda n=n: tg.burst_in_one_read(ctx, rng, 'C02', n))) for n in (40, 130, 1200)] +
                     [('burst-halfclose-%d' % n, (lambda n=n: tg.burst_in_one_read(ctx, rng, 'C02', n, dst_closes=False)))
                      for n in (3, 40)] +
                     [('failure-%s-%s' % (w_, f_), (lambda w_=w_, f_=f_: tg.failure_tears_down(ctx, rng, 'C02', w_, f_)))
                      for w_ in ('app', 'dst') for f_ in ('recv', 'send')] +
                     [('closed-app-streaming-dst', lambda: tg.closed_app_streaming_dst(ctx, rng, 'C02'))] +
                     [('stop-after-eof-%s' % w_, (lambda w_=w_: tg.stop_after_eof(ctx, rng, 'C02', w_))) for w_ in ('dst', 'app')] +
+                    [('close-before-connect-hangs-%d' % n, (lambda n=n: tg.close_before_connect_hangs(ctx, rng, 'C02', n))) for n in (0,)] +
                     [('eof-meets-connect-%d' % n, (lambda n=n: tg.eof_meets_connect(ctx, rng, 'C02', n))) for n in (1, 3000)] +
                     [('connect-with-followers-%d-%d' % (n, k), (lambda n=n, k=k: tg.connect_with_followers(ctx, rng, 'C02', n, k)))
                      for n, k in ((0, 1), (300, 1), (0, 3), (5000, 2))]):
@@ -259,6 +260,18 @@ def run(ctx):
 
 
 def replay(ctx, rep):
+    if 'closed-before-connect' in rep.get('key', ''):
+        cfgv = rep.get('case', {}).get('cfg') or []
+        c2 = type(ctx)(ctx.prop_id, 'quick', 0)
+        saved = (tg.next_verbose, tg.next_platform)
+        tg.next_verbose = lambda: (cfgv[4] if len(cfgv) > 4 else 0)
+        tg.next_platform = lambda: (cfgv[5] if len(cfgv) > 5 else 0)
+        try:
+            tg.close_before_connect_hangs(c2, c2.rng, 'C02', 0)
+        finally:
+            tg.next_verbose, tg.next_platform = saved
+        hit = [v for v in c2.violations if v['key'] == rep.get('key')]
+        return bool(hit), (str(hit[0]['observed']) if hit else 'the flow is torn down on both ends and the application is told')
     if ':reuse:' in rep.get('key', ''):
         c2 = type(ctx)(ctx.prop_id, 'quick', 0)
         for maxchan in (1, 2):
